@@ -1402,7 +1402,15 @@ def parse(expression, variables, indices, arg_shapes={}, default_geometry_name='
     arg_shapes = dict(arg_shapes)
     for arg, shape in parser.arg_shapes.items():
         arg_shapes[arg] = tuple(lengths.get(i, i) for i in shape)
-    return _replace_lengths(ast, lengths), arg_shapes
+    try:
+        ast = _replace_lengths(ast, lengths)
+    except KeyError as e:
+        length, = e.args
+        if not isinstance(length, _Length):
+            raise
+        # a length that is not part of the shape of the result, e.g. of an axis that is selected by a numeral
+        raise ExpressionSyntaxError('Length of axis cannot be determined from the expression.' + '\n' + expression + '\n' + ' '*length.pos + '^') from None
+    return ast, arg_shapes
 
 
 def _eval_ast(ast, functions):
